@@ -7,7 +7,7 @@
 \*                equality            no restriction
 \*                friction loss       -floss <= f <= floss                                  (AdmFric)
 \*                limit, frictionless, pyramid edge     f >= 0                              (AdmUni)
-\*                elliptic contact    f_n >= 0  and  f_n >= || f_t / mu ||  (within eps)    (AdmCone), friction rows free
+\*                elliptic contact    f_n >= 0  and  f_n^2 >= || f_t / mu ||^2  (within eps) (AdmCone), friction rows free
 \*   ContactForce  one per contact: mj_contactForce agrees with the rows it decodes; its normal component is >= 0
 \*   End        qfrc_constraint = J' efc_force
 \* plus the layout the rows must have (ne equality rows, then nf friction-loss rows, then nl limit rows, then
@@ -123,26 +123,26 @@ SumRows(ds, cone) == IF ds = << >> THEN 0 ELSE RowsOfDim(Head(ds), cone) + SumRo
 DimSeqs == UNION {[1..n -> Dims] : n \in 0..MaxCon}
 \* the model checker also varies how many of the ncon detected contacts are excluded (address -1): `skip` ids
 \* before the first included contact and `extra` after the last one
-MCBegin == \E ne \in 0..MaxEq, nf \in 0..MaxFr, nl \in 0..MaxLim, cone \in {0, 1}, ds \in DimSeqs, skip \in 0..1, extra \in 0..1 :
+MCBegin == st = "idle" /\
+           \E ne \in 0..MaxEq, nf \in 0..MaxFr, nl \in 0..MaxLim, cone \in {0, 1}, ds \in DimSeqs, skip \in 0..1, extra \in 0..1 :
              /\ Begin(ne, nf, nl, Len(ds) + skip + extra, ne + nf + nl + SumRows(ds, cone), cone)
              /\ plan' = [k \in 1..Len(ds) |-> <<ds[k], skip + k - 1>>]
 NextDim == Head(plan)[1]
 NextId  == Head(plan)[2]
-MCNext ==
-  \/ MCBegin
-  \/ (\E s \in Signs : RowEq(0, s)) /\ UNCHANGED plan
-  \/ (\E ty \in {1, 2}, b \in Bounds : RowFric(ty, b)) /\ UNCHANGED plan
-  \/ (\E ty \in {3, 4}, s \in Signs : RowLimit(ty, s)) /\ UNCHANGED plan
-  \/ /\ plan # << >> /\ plan' = Tail(plan)
-     /\ \/ \E s \in Signs : RowFrictionless(5, NextId, NextDim, pos, s)
-        \/ \E s \in Signs : RowPyrFirst(6, NextId, NextDim, pos, s)
-        \/ \E s \in Signs, sl \in Slacks : RowEllFirst(7, NextId, NextDim, pos, s, sl)
-  \/ (\E s \in Signs : RowPyrNext(6, cur.id, s) \/ RowEllNext(7, cur.id, s)) /\ UNCHANGED plan
-  \/ /\ UNCHANGED plan
-     /\ \/ \E c \in started, ns \in Signs : ContactForce(c[1], c[3], c[2], 1, ns, 0)
-        \/ \E dim \in Dims : ContactForce(ncdone, dim, -1, 1, "zero", 0)
-  \/ End(1) /\ UNCHANGED plan
-  \/ Done /\ UNCHANGED plan
+MCEq    == (\E s \in Signs : RowEq(0, s)) /\ UNCHANGED plan
+MCFric  == (\E ty \in {1, 2}, b \in Bounds : RowFric(ty, b)) /\ UNCHANGED plan
+MCLimit == (\E ty \in {3, 4}, s \in Signs : RowLimit(ty, s)) /\ UNCHANGED plan
+MCFrictionless == plan # << >> /\ plan' = Tail(plan) /\ \E s \in Signs : RowFrictionless(5, NextId, NextDim, pos, s)
+MCPyrFirst == plan # << >> /\ plan' = Tail(plan) /\ \E s \in Signs : RowPyrFirst(6, NextId, NextDim, pos, s)
+MCEllFirst == plan # << >> /\ plan' = Tail(plan) /\ \E s \in Signs, sl \in Slacks : RowEllFirst(7, NextId, NextDim, pos, s, sl)
+MCPyrNext  == (\E s \in Signs : RowPyrNext(6, cur.id, s)) /\ UNCHANGED plan
+MCEllNext  == (\E s \in Signs : RowEllNext(7, cur.id, s)) /\ UNCHANGED plan
+MCContactIncluded == (\E c \in started, ns \in Signs : ContactForce(c[1], c[3], c[2], 1, ns, 0)) /\ UNCHANGED plan
+MCContactExcluded == (\E dim \in Dims : ContactForce(ncdone, dim, -1, 1, "zero", 0)) /\ UNCHANGED plan
+MCEnd  == End(1) /\ UNCHANGED plan
+MCDone == Done /\ UNCHANGED plan
+MCNext == \/ MCBegin \/ MCEq \/ MCFric \/ MCLimit \/ MCFrictionless \/ MCPyrFirst \/ MCEllFirst \/ MCPyrNext \/ MCEllNext
+          \/ MCContactIncluded \/ MCContactExcluded \/ MCEnd \/ MCDone
 Spec == Init /\ [][MCNext]_vars
 
 \* ---- properties of the monitor
